@@ -184,7 +184,21 @@ class ImportedName(Name, Resolvable):
 
         value = None
         filename = self.scope.top.source.filename
-        if self.mname:
+        try:
+            value = ctx.project.get_nmodule(self.module, filename)
+        except ImportError:
+            logging.getLogger('supp.import').error(
+                'Failed import of %s from %s', self.module, filename)
+            # value = FailedImport(self.module)
+        else:
+            if self.mname:
+                # like python: an attribute of the package first
+                # (pkg/__init__.py: from .Name import Name), then a submodule
+                value = value.get_attr(ctx, self.mname)  # type: ignore[assignment]
+                if value is self:
+                    value = None  # pkg/__init__.py: from . import submodule
+
+        if value is None and self.mname:
             if self.module.strip('.'):
                 module = self.module + '.' + self.mname
             else:
@@ -194,17 +208,6 @@ class ImportedName(Name, Resolvable):
                 value = ctx.project.get_nmodule(module, filename)
             except ImportError:
                 pass
-
-        if value is None:
-            try:
-                value = ctx.project.get_nmodule(self.module, filename)
-            except ImportError:
-                logging.getLogger('supp.import').error(
-                    'Failed import of %s from %s', self.module, filename)
-                # value = FailedImport(self.module)
-            else:
-                if self.mname:
-                    value = value.get_attr(ctx, self.mname)  # type: ignore[assignment]
 
         if not self.mname and value:
             prefix = self.module + '.'
